@@ -1,7 +1,7 @@
 """C01 — every cell is the nearest-generator region of its generator (necessary structural clauses)."""
 import re
 from fractions import Fraction
-from .. import interp as I, nf
+from .. import interp as I, nf, dtab
 from ..nf import RF, as_rf
 from ..tables import c3, dot3, cross3, det3
 from ..facts import AnalysisIncomplete, strip_generics, calls, callee_name
@@ -49,6 +49,63 @@ def run(ctx):
             ctx.guarded(rule, 'evaluate' + sfx, lambda: fn(ctx, F, rule, sfx))
 
 
+def is_item_some(c):
+    return c.op == 'cmp' and c.args[0] == '==' and 'discr(' in repr(c.args[1]) and '::next(' in repr(c.args[1]) and not repr(c.args[1]).rstrip(')').endswith(('.Some.0.0', '.Some.0.1'))
+
+
+def is_termination(c):
+    return c.op == 'cmp' and c.args[0] in ('<', '<=') and 'safety_radius' in repr(c.args[2])
+
+
+def self_skip_conditions(sc, conds):
+    """conjunction(conds)  <=>  not (item index == own index and item shift is None), as a table over those two atoms."""
+    nev = [e for e in sc.ip.events if e.term is sc.next_term]
+    if len(nev) != 1:
+        return False
+    item = repr(I.frozen(I.get_field(I.downcast(nev[0].result, 'Some'), 0)))
+
+    def classify(leaf):
+        if leaf.op == 'cmp' and leaf.args[0] in ('==', '!='):
+            a, b = repr(leaf.args[1]), repr(leaf.args[2])
+            if {a, b} == {item + '.0', 'idx'}:
+                return ('OWN', leaf.args[0] == '==')
+        p = dtab.option_leaf(leaf, item + '.1')
+        if p is not None:
+            return ('SN', not p)
+        return None
+    T = dtab.Table(['OWN', 'SN'], classify)
+    try:
+        tab = T.tabulate(I.TRUE, tuple(conds))
+    except AnalysisIncomplete:
+        return False
+    return all((v is not None) == (not (own and sn)) for (own, sn), v in tab.items())
+
+
+def self_only_filter(sc):
+    """The one `filter` on the candidate stream keeps an item (i, shift)  <=>  not (i == own index and shift is None): decided as a table over
+    those two atoms from the closure's abstract result; any other condition in the predicate makes the answer False."""
+    runs = [r for r in sc.ip.closure_runs if r.get('adaptor') == 'filter' and r.get('body') is sc.body]
+    if len(runs) != 1 or not isinstance(runs[0]['result'], (I.B, I.Ite)):
+        return False
+    run = runs[0]
+    item = repr(I.frozen(run['item'])) if not isinstance(run['item'], I.Ref) else repr(I.frozen(I.read_lv(run['item'].lv)))
+
+    def classify(leaf):
+        if leaf.op == 'cmp' and leaf.args[0] in ('==', '!='):
+            a, b = repr(leaf.args[1]), repr(leaf.args[2])
+            if {a, b} == {item + '.0', 'idx'}:
+                return ('OWN', leaf.args[0] == '==')
+        p = dtab.option_leaf(leaf, item + '.1')
+        if p is not None:
+            return ('SN', not p)
+        return None
+    try:
+        tab = dtab.Table(['OWN', 'SN'], classify).tabulate(run['result'])
+    except AnalysisIncomplete:
+        return False
+    return all(bool(v is True or (isinstance(v, I.B) and v.op == 'const' and v.args[0])) == (not (own and sn)) for (own, sn), v in tab.items())
+
+
 def r1(ctx, F, rule, sfx):
     sc = scen.build_scenario(F)
     b, cfg = sc.body, sc.cfg
@@ -73,6 +130,13 @@ def r1(ctx, F, rule, sfx):
     if some_arm is None:
         raise AnalysisIncomplete('switch on the stream item not found in the builder loop', b['path'])
     back_ok = sc.header not in cfg.reachable_from(some_arm, avoid={sc.clip_block}) or some_arm == sc.header
+    skip_in_loop = False
+    if not back_ok and len(sc.clip_events) == 1:
+        # a path around the clip exists: accepted only if it is taken exactly for the generator's own unshifted item (`continue` form of
+        # "take the self item off"); the abstract guard of the clip call names every condition under which the clip is bypassed
+        others = [c for c in sc.clip_events[0].guard if not is_item_some(c) and not is_termination(c)]
+        if others and self_skip_conditions(sc, others):
+            back_ok = skip_in_loop = True
     ctx.check(rule, 'every-candidate-is-clipped' + sfx, back_ok, 'paths Some-arm(bb%d) -> loop header(bb%d) avoiding the clip call(bb%d): %s' % (some_arm, sc.header, sc.clip_block, 'none' if back_ok else 'exist'),
               'none', where(b, sc.clip_term['line']), key_extra='bypass')
     # stream provenance: the loop consumes the neighbour stream argument itself; the only items not offered to the
@@ -86,6 +150,11 @@ def r1(ctx, F, rule, sfx):
     skipped = [a for n, a in chain if n == 'skip']
     other = [n for n in names if n not in ('into_iter', 'mut:next', 'by_ref', 'skip')]
     nskip = consumed + sum(int(as_rf(a[0]).const_value()) if a and isinstance(a[0], RF) and a[0].is_const() else 99 for a in skipped)
+    if other == ['filter'] and nskip == 0 and self_only_filter(sc):
+        # the same thing written as a filter: exactly the unshifted item with the cell's own index is dropped, wherever it comes in the stream
+        other, nskip = [], 1
+    if not other and nskip == 0 and skip_in_loop:
+        nskip = 1
     ok_stream = repr(src) == 'nn' and not other and nskip == 1
     ctx.check(rule, 'loop-consumes-the-whole-candidate-stream' + sfx, ok_stream, 'stream: %s over %r; items consumed before the loop: %d' % (' <- '.join(names), src, nskip),
               'the neighbour stream argument minus exactly its first item (the generator itself), no filtering adaptor', where(b, nt['line']), key_extra='stream:%s' % ','.join(other or ['skip%d' % nskip]))
@@ -95,14 +164,17 @@ def r1(ctx, F, rule, sfx):
     g = sc.clip_events[0].guard
     extra = []
     n_some = n_term = 0
+    rest = []
     for c in g:
         txt = repr(c)
-        if c.op == 'cmp' and c.args[0] == '==' and 'discr(' in repr(c.args[1]) and '::next(' in repr(c.args[1]):
+        if is_item_some(c):
             n_some += 1
-        elif c.op == 'cmp' and c.args[0] in ('<', '<=') and 'safety_radius' in repr(c.args[2]):
+        elif is_termination(c):
             n_term += 1
         else:
-            extra.append(txt[:160])
+            rest.append(c)
+    if rest and not (skip_in_loop and self_skip_conditions(sc, rest)):
+        extra = [repr(c)[:160] for c in rest]
     ctx.check(rule, 'clip-guard' + sfx, not extra and n_term == 1, 'clip guarded by: item-is-Some x%d, termination test x%d, other: %s' % (n_some, n_term, extra or 'none'),
               'only the stream item test and the termination test', where(b, sc.clip_term['line']), key_extra='guard')
 
